@@ -60,7 +60,9 @@ pub fn run<P: Pat>(args: &Args) -> Value {
                 }
                 // node b carries a service tag exactly if its attempt succeeded
                 rec["tag"] = json!(util::tagged_nodes(&config, &ids).contains(&1) as i64);
-                let again = P::open(&d.node, &name, &type_only(c));
+                // control open: from node b if it got in (no additional node), else from the third node d - so
+                // that a node whose attempt was refused never holds the service afterwards
+                let again = P::open(if opened.is_ok() { &b.node } else { &d.node }, &name, &type_only(c));
                 match &again {
                     Ok(h) => {
                         let s = P::seen(h);
